@@ -115,6 +115,7 @@ Verdict(e) ==
     [] op = "sqrt" -> SqrtOK(IF e.form \in {"default", "ctx", "dref_ctx"} THEN "some" ELSE IF e.form = "dref_abs" THEN "abs" ELSE "copysign",
                              Arg(e.a), PrecOf(e), ModeOf(e), e.r)
     [] op = "cbrt" -> CbrtOK(Arg(e.a), PrecOf(e), ModeOf(e), e.r)
+    [] op = "inverse" /\ Arg(e.a).d = <<>> -> OK                       \* C12 speaks of non-zero x only
     [] op = "inverse" -> LET v == InverseOK(Arg(e.a), PrecOf(e), ModeOf(e), e.r)
                              w == IF v = OK THEN InvAgreeOK(hist.inv, Arg(e.a), PrecOf(e), ModeOf(e), e.r) ELSE v
                          \* behaviours printed by the mechanism model MC_Inverse carry the result the modelled routine computes
@@ -153,7 +154,8 @@ Step ==
      THEN hist' = EmptyHist /\ regs' = NoRegs /\ UNCHANGED <<cfg, bad>>
      ELSE IF e.op = "note"
      THEN UNCHANGED <<cfg, regs, hist, bad>>
-     ELSE LET v0 == Verdict(e)
+     \* a program step marked "soft" exercises an operation that another property speaks about: informational here
+     ELSE LET v0 == IF "soft" \in DOMAIN e THEN Soft(Verdict(e)) ELSE Verdict(e)
               v == IF v0 = OK THEN OK ELSE Explained(e, v0)
           IN
           /\ bad' = IF v = OK THEN bad ELSE Append(bad, <<l, v>>)
